@@ -882,6 +882,12 @@ func (v *Env) call(x *SExpr) Value {
 			}
 			z := ConstI(0, I64)
 			return Scalar{Or(Le(a.Len, z), Le(b.Len, z), Le(AddNW(a.Ptr, a.Len), b.Ptr), Le(AddNW(b.Ptr, b.Len), a.Ptr))}
+		case "heapslice": // storage of s was allocated dynamically (it is not an array field)
+			a, ok := v.eval(args[0]).(SliceV)
+			if !ok {
+				v.fail("heapslice needs a slice")
+			}
+			return Scalar{Le(AddNW(a.Ptr, a.Cap), ConstI(staticBase, Ref))}
 		case "fresh": // fresh(s): slice storage allocated during the call
 			a, ok := v.eval(args[0]).(SliceV)
 			if !ok {
